@@ -43,6 +43,14 @@ EigenChecks(g, a) ==
         (a.groups[i].calls[j].e = "" /\ Len(g.nodes) > 0) => a.groups[i].calls[j].norm_err_e12 <= NormLimitE12>>,
     <<"approximate_fixed_point", \A i \in DOMAIN a.groups : \A j \in DOMAIN a.groups[i].calls :
         a.groups[i].calls[j].e = "" => a.groups[i].calls[j].ratio_milli <= 1000 * EigenK(g, a.groups[i].weighted)>>,
+    (* "never a non-converged vector": the harness repeats the documented iteration (start 1/n, normalise(x + A^T x),
+       converged when the entries moved by less than n * tol in total) and logs the first iteration kref_lo at which
+       the movement is below the threshold widened by 1e-6 and kref_hi for the threshold narrowed by 1e-6 (1000000 =
+       not within 1000 iterations).  Ok is only allowed from kref_lo on, an error only before kref_hi. *)
+    <<"converged_iff_ok", \A i \in DOMAIN a.groups : \A j \in DOMAIN a.groups[i].calls :
+        LET c == a.groups[i].calls[j] IN
+        /\ c.e = "" => c.max_iter >= a.groups[i].kref_lo
+        /\ c.e = "PowerIterationFailedConvergence" => c.max_iter < a.groups[i].kref_hi>>,
     (* calls are logged with increasing max_iter: once Ok, always Ok with the same vector;
        equivalently an Err at k implies an Err at every smaller k *)
     <<"monotone_in_max_iter", \A i \in DOMAIN a.groups :
